@@ -31,18 +31,20 @@ type Case struct {
 	Retry     bool
 	TwoAddrs  bool
 	DeadFirst bool // the first of the publisher's addresses refuses connections
+	LibHook   bool // the subscriber's hook delegates to dagsync.MakeGeneralBlockHook (fault kind prevfail: its lookup function fails)
 	SegScoped bool // explicit syncs give the segment size per call (with a per-call depth limit); the subscriber's own limit is larger
 	Attempts  []fault // 1 or 2 faulty attempts (one fault each), followed by a fault-free attempt
 }
 
-var kinds = []string{"s400", "s403", "s404", "s429", "s500", "s503", "reset", "truncate", "flipbit", "stall", "cancelcaller", "hookfail", "hookcancel", "badaddr", "noaddr"}
+var kinds = []string{"s400", "s403", "s404", "s429", "s500", "s503", "reset", "truncate", "flipbit", "stall", "cancelcaller", "hookfail", "hookcancel", "badaddr", "noaddr", "prevfail"}
 
 func genCase(t *rapid.T) Case {
 	c := Case{N: rapid.IntRange(1, 6).Draw(t, "n"), InitPos: -1}
 	if c.N > 1 && rapid.Bool().Draw(t, "hasinit") {
 		c.InitPos = rapid.IntRange(0, c.N-2).Draw(t, "initpos")
 	}
-	c.Seg = rapid.SampledFrom([]int64{-1, 1, 2}).Draw(t, "seg")
+	c.Seg = rapid.SampledFrom([]int64{-1, 1, 2, 2, 3}).Draw(t, "seg")
+	c.LibHook = c.Seg > 0 && rapid.IntRange(0, 2).Draw(t, "libhook") > 0
 	c.Entry = rapid.SampledFrom([]string{"sync", "announce"}).Draw(t, "entry")
 	c.Discovery = rapid.Bool().Draw(t, "discovery")
 	c.Retry = rapid.IntRange(0, 3).Draw(t, "retry") == 0
@@ -59,7 +61,10 @@ func genCase(t *rapid.T) Case {
 		if f.Kind == "hookcancel" && f.At < 0 {
 			f.At = 0
 		}
-		if f.Kind == "hookfail" && (c.Seg <= 0 || f.At < 0) {
+		if f.Kind == "prevfail" && !c.LibHook {
+			f.Kind = "hookfail"
+		}
+		if (f.Kind == "hookfail" || f.Kind == "prevfail") && (c.Seg <= 0 || f.At < 0) {
 			if c.Seg <= 0 {
 				f.Kind = "s500"
 			} else {
@@ -85,6 +90,8 @@ func applicable(c Case, f fault) bool {
 		return c.Entry == "sync" && f.At >= 0
 	case "hookfail":
 		return c.Seg > 0 && f.At >= 0
+	case "prevfail":
+		return c.Seg > 0 && f.At >= 0 && c.LibHook
 	case "badaddr", "noaddr":
 		return f.At == 0
 	}
@@ -109,6 +116,7 @@ type run struct {
 
 func setup(c Case) (*run, error) {
 	w := world.New()
+	w.LibraryHook = c.LibHook
 	p := w.AddPublisher(0, c.Discovery, "")
 	p.ExtendAds(c.N)
 	if c.TwoAddrs {
@@ -278,8 +286,12 @@ func runCase(t *testing.T) func(Case) pbt.Result {
 				ctx, cancel := context.WithCancel(context.Background())
 				wf := wfault(f, cancel, 0)
 				r.s.ArmHook(-1)
+				r.s.ArmPrevFail(-1)
 				r.s.SetOnHook(nil)
 				switch {
+				case f.Kind == "prevfail":
+					r.s.ArmPrevFail(f.At)
+					r.p.ArmFaults(nil, nil)
 				case f.Kind == "hookcancel":
 					r.p.ArmFaults(nil, nil)
 					calls := 0
@@ -313,7 +325,7 @@ func runCase(t *testing.T) func(Case) pbt.Result {
 					res.Fail = fmt.Sprintf("%s: stored blocks do not hash to their CID: %v", what, bad)
 					return
 				}
-				reached := (f.Kind == "hookfail" || f.Kind == "hookcancel") && r.s.NHooks()-hk0 > f.At
+				reached := (f.Kind == "hookfail" || f.Kind == "hookcancel" || f.Kind == "prevfail") && r.s.NHooks()-hk0 > f.At
 				if f.Kind == "badaddr" || f.Kind == "noaddr" {
 					// the sync cannot even start: no request is made
 					reached = !ok
@@ -323,8 +335,8 @@ func runCase(t *testing.T) func(Case) pbt.Result {
 						reached = true
 					}
 				}
-				if ok && f.Kind == "hookfail" && reached {
-					res.Fail = fmt.Sprintf("%s: the block hook called FailSync at its call %d of a segmented sync, but the sync succeeded", what, f.At)
+				if ok && (f.Kind == "hookfail" || f.Kind == "prevfail") && reached {
+					res.Fail = fmt.Sprintf("%s: the block hook signalled a failure (FailSync) at its call %d of a segmented sync (segment size %d, library hook: %v), but the sync succeeded", what, f.At, c.Seg, c.LibHook)
 					return
 				}
 				if ok {
@@ -376,6 +388,7 @@ func runCase(t *testing.T) func(Case) pbt.Result {
 			// the publisher answers correctly again
 			r.p.ArmFaults(nil, nil)
 			r.s.ArmHook(-1)
+			r.s.ArmPrevFail(-1)
 			if r.s.Latest(r.p.ID) == head {
 				res.Classes = append(res.Classes, "already-synced-before-final")
 				return
@@ -447,7 +460,7 @@ func runCase(t *testing.T) func(Case) pbt.Result {
 	}
 }
 
-const rule = "chain of 1..6 ads, optional earlier sync of a prefix, segmented (1, 2) or not, explicit or announce-triggered, plain or discovery transport, optional retryable client, one or two publisher addresses; optionally a first address that refuses connections, optionally the segment size given per call (ScopedSegmentDepthLimit with a per-call depth limit, under a larger subscriber-wide limit); 1 or 2 faulty attempts, each with one fault (HTTP 400/403/404/429/500/503, connection reset, truncated body, bit flip, stalled response, caller context cancelled at a request or inside the k-th hook call, FailSync from the hook, at the head request or at any block-request index; or the sync cannot start at all: sender information with only a non-HTTP address, or with no address), then a fault-free attempt; oracle: differential against a fault-free run of the same configuration in a fresh world: a failed attempt leaves latest-sync unchanged, emits no success notification and (announce) exactly one error notification for the announced CID; a successful attempt ends at the head; the fault-free attempt succeeds, latest-sync, store contents and reported blocks equal the fault-free run and it requests exactly the segment blocks not yet stored; every stored block hashes to its CID. Non-trivial: the fault was reached and the attempt failed; distinct by (fault kind, request index, chain length, entry kind, transport, segment size)."
+const rule = "chain of 1..6 ads, optional earlier sync of a prefix, segmented (1, 2, 3) or not, the subscriber's hook its own or delegating to the library's MakeGeneralBlockHook, explicit or announce-triggered, plain or discovery transport, optional retryable client, one or two publisher addresses; optionally a first address that refuses connections, optionally the segment size given per call (ScopedSegmentDepthLimit with a per-call depth limit, under a larger subscriber-wide limit); 1 or 2 faulty attempts, each with one fault (HTTP 400/403/404/429/500/503, connection reset, truncated body, bit flip, stalled response, caller context cancelled at a request or inside the k-th hook call, FailSync from the hook, a failing previous-advertisement lookup inside the library's general hook, at the head request or at any block-request index; or the sync cannot start at all: sender information with only a non-HTTP address, or with no address), then a fault-free attempt; oracle: differential against a fault-free run of the same configuration in a fresh world: a failed attempt leaves latest-sync unchanged, emits no success notification and (announce) exactly one error notification for the announced CID; a successful attempt ends at the head; the fault-free attempt succeeds, latest-sync, store contents and reported blocks equal the fault-free run and it requests exactly the segment blocks not yet stored; every stored block hashes to its CID. Non-trivial: the fault was reached and the attempt failed; distinct by (fault kind, request index, chain length, entry kind, transport, segment size)."
 
 func TestC04_Random(t *testing.T) {
 	pbt.Run(t, pbt.Config{Prop: "C04", Unit: "TestC04_Random", Rule: rule, TrackCurrent: true}, genCase, runCase(t))
@@ -461,7 +474,7 @@ func TestC04_Exhaustive(t *testing.T) {
 		pairs = true
 	}
 	pbt.RunEnum(t, pbt.Config{Prop: "C04", Unit: "TestC04_Exhaustive", TrackCurrent: true,
-		Rule: fmt.Sprintf("exhaustive single faults: chain lengths %v x all 15 fault kinds x every request index (head, 0..n-1) x {explicit, announce} x {plain, discovery} x {unsegmented, segment 1}; thorough adds all ordered pairs of faults for n = 3; same oracle as TestC04_Random.", ns),
+		Rule: fmt.Sprintf("exhaustive single faults: chain lengths %v x all 16 fault kinds x every request index (head, 0..n-1) x {explicit, announce} x {plain, discovery} x {unsegmented, segment 1}, plus both hook-failure kinds at every hook call with the library's general hook and segments of 2 and 3; thorough adds all ordered pairs of faults for n = 3; same oracle as TestC04_Random.", ns),
 	}, func(yield func(Case) bool) {
 		for _, n := range ns {
 			for _, k := range kinds {
@@ -476,6 +489,21 @@ func TestC04_Exhaustive(t *testing.T) {
 								if !yield(c) {
 									return
 								}
+							}
+						}
+					}
+				}
+			}
+		}
+		// hook failures inside a segment of more than one block, own hook and the library's
+		for _, n := range ns {
+			for _, k := range []string{"hookfail", "prevfail"} {
+				for at := 0; at < n; at++ {
+					for _, entry := range []string{"sync", "announce"} {
+						for _, seg := range []int64{2, 3} {
+							c := Case{N: n, InitPos: -1, Seg: seg, Entry: entry, LibHook: true, Attempts: []fault{{At: at, Kind: k, Pos: 37}}}
+							if !yield(c) {
+								return
 							}
 						}
 					}
